@@ -334,7 +334,7 @@ func TestBatchMultiplexing(t *testing.T) {
 					if sp.Forward {
 						req.ForwardedHost = "127.0.0.1:1"
 					}
-					begin := time.Now()
+					begin := ev.Observed()
 					inflight.Add(1)
 					var resp *tikvrpc.Response
 					var err error
@@ -345,7 +345,7 @@ func TestBatchMultiplexing(t *testing.T) {
 					}
 					inflight.Add(-1)
 					atomic.AddInt32(&res.returns, 1)
-					res.elapsed = time.Since(begin)
+					res.elapsed = ev.Observed() - begin
 					res.err = err
 					if err == nil && resp != nil {
 						switch r := resp.Resp.(type) {
@@ -363,9 +363,7 @@ func TestBatchMultiplexing(t *testing.T) {
 		}
 		doneCh := make(chan struct{})
 		go func() { wg.Wait(); close(doneCh) }()
-		select {
-		case <-doneCh:
-		case <-time.After(25 * time.Second):
+		if _, ok := ev.Await(doneCh, 400); !ok {
 			var stuck []string
 			for i := range results {
 				for j, r := range results[i] {
